@@ -147,6 +147,16 @@ class HierCase(object):
         _, psi = self.h.split(z, self.cov)
         return np.real(psi)
 
+    def separated_posterior(self):
+        """posterior with a tight prior around well separated dimensions
+        (GP.separated_top); returns (posterior, locations)"""
+        top, sd, loc = GP.separated_top(self.leaves, self.n_ids)
+        priors = [pints.GaussianLogPrior(float(m), float(s_))
+                  for m, s_, free in zip(top, sd, self.free_top) if free]
+        post = chi.HierarchicalLogPosterior(
+            self.hl, pints.ComposedLogPrior(*priors))
+        return post, loc
+
     def sampling_posterior(self):
         """posterior whose prior keeps every population parameter inside the
         support (scales positive, small covariate effects): used wherever
